@@ -200,7 +200,19 @@ def build_by_protocol(DiGraph, rng, objs, order, adj, extra, hashable,
             calls.append((i, ch))
     if rng.random() < 0.5:
         rng.shuffle(calls)
-    for i, ch in calls:
+    # an incremental client registers every object together with what it
+    # refers to: nodes that are known already - some with edges on record -
+    # are named again in later add_nodes() calls
+    renamed = rng.random() < 0.5
+    for n_call, (i, ch) in enumerate(calls):
+        if renamed and rng.random() < 0.5:
+            again = [objs[i]] + [objs[j] for j in ch]
+            if n_call and rng.random() < 0.5:
+                again.append(objs[calls[n_call - 1][0]])
+            rng.shuffle(again)
+            g.add_nodes(_container(rng, again, False, made))
+            stats['add_nodes_naming_known_nodes'] = \
+                stats.get('add_nodes_naming_known_nodes', 0) + 1
         items = [objs[j] for j in ch] + extra
         keyc = tuple(sorted(ch))
         if hashable and not extra and keyc in shared and rng.random() < 0.6:
